@@ -99,6 +99,20 @@ type Reg struct {
 	Group  string
 	As     []int
 	Kind   int
+	BadOpt int // hostile option appended to the call (C15/C17/C20)
+}
+
+// Hostile options
+const (
+	BadOptNone       = 0
+	BadOptNil        = 1 // a nil AddOption: ignored by contract
+	BadOptAsNonIface = 2 // godi.As[int](): invalid
+	BadOptBackquote  = 3 // godi.Name with a backquote: invalid
+)
+
+// InvalidOptions reports whether the option combination must be rejected.
+func (r Reg) InvalidOptions() bool {
+	return (r.Name != "" && r.Group != "") || r.BadOpt == BadOptAsNonIface || r.BadOpt == BadOptBackquote
 }
 
 func (r Reg) String() string {
